@@ -184,30 +184,37 @@ Qed.
 (* ================= the decision ================= *)
 Definition is_local (o : outcome) : bool := match o with Local _ => true | Forward _ _ _ => false end.
 
-(* a detected loop is answered locally unless the store lookup yields a stale entry *)
-Lemma loop_not_forwarded_partial c m major minor cache nocache hs :
+(* a detected loop is never forwarded: every method, version, cache state, header block *)
+Lemma loop_not_forwarded c m major minor cache nocache hs :
   loop_detected c hs = true ->
-  cache <> CStale \/ nocache = true ->
   exists st, handle c m major minor cache nocache hs = Local st.
 Proof.
-  intros Hl Hc. unfold handle, process_miss. rewrite Hl.
+  intros Hl. unfold handle, process_miss. rewrite Hl.
   destruct (is_options m && (mf_first hs =? 0)%Z); [eexists; reflexivity|].
   destruct (is_trace m); [destruct (mf_first hs =? 0)%Z; eexists; reflexivity|].
   destruct nocache; [eexists; reflexivity|].
-  destruct cache; try (eexists; reflexivity). destruct Hc as [Hc|Hc]; [contradiction|discriminate].
+  destruct cache; eexists; reflexivity.
 Qed.
 
-(* ... and the only way a detected loop is forwarded is the revalidation of a stale hit *)
-Lemma loop_forwarded_only_stale c m major minor cache nocache hs cnd mfs via :
-  loop_detected c hs = true ->
-  handle c m major minor cache nocache hs = Forward cnd mfs via ->
-  cache = CStale /\ nocache = false /\ cnd = true /\ is_trace m = false.
+(* the same, read from the other side: whatever is forwarded had no detected loop *)
+Lemma forwarded_no_loop c m major minor cache nocache hs cnd mfs via :
+  handle c m major minor cache nocache hs = Forward cnd mfs via -> loop_detected c hs = false.
 Proof.
-  intros Hl. unfold handle, process_miss, process_expired. rewrite Hl.
+  intros H. destruct (loop_detected c hs) eqn:Hl; [|reflexivity].
+  destruct (loop_not_forwarded c m major minor cache nocache hs Hl) as [st Hst]. rewrite Hst in H. discriminate.
+Qed.
+
+(* a conditional (revalidation) request goes upstream only for a stale entry, without no-cache, not on TRACE *)
+Lemma revalidation_only_stale c m major minor cache nocache hs mfs via :
+  handle c m major minor cache nocache hs = Forward true mfs via ->
+  cache = CStale /\ nocache = false /\ is_trace m = false.
+Proof.
+  unfold handle, process_miss, process_expired.
   destruct (is_options m && (mf_first hs =? 0)%Z); [discriminate|].
-  destruct (is_trace m); [destruct (mf_first hs =? 0)%Z; discriminate|].
-  destruct nocache; [discriminate|].
-  destruct cache; try discriminate. intros H. injection H as H1 H2 H3. subst cnd. repeat split; reflexivity.
+  destruct (is_trace m); [destruct (mf_first hs =? 0)%Z; [discriminate|destruct (loop_detected c hs); discriminate]|].
+  destruct nocache; [destruct (loop_detected c hs); discriminate|].
+  destruct cache; [destruct (loop_detected c hs); discriminate|discriminate|].
+  intros _. repeat split; reflexivity.
 Qed.
 
 (* without a detected loop nothing is refused with 403 *)
@@ -220,28 +227,26 @@ Proof.
   destruct nocache; [discriminate|]. destruct cache; discriminate.
 Qed.
 
-(* the property's first sentence for this Squid's own entry, as far as it holds *)
+(* the property's first sentence for this Squid's own entry as Squid writes it *)
 Lemma own_via_not_forwarded_partial c m major minor cache nocache hs h pre post :
   nonul (c_host c) = true -> nonul (c_app c) = true ->
   In h hs -> is_via h = true -> nonul pre = true ->
   h_value h = pre ++ this_cache2 c ++ post ->
-  cache <> CStale \/ nocache = true ->
   exists st, handle c m major minor cache nocache hs = Local st.
 Proof.
-  intros Hh Ha Hin Hv Hpre Hval Hc. apply loop_not_forwarded_partial; [|exact Hc].
+  intros Hh Ha Hin Hv Hpre Hval. apply loop_not_forwarded.
   eapply own_entry_detected; eassumption.
 Qed.
 
 (* what was forwarded by this Squid and comes back (possibly extended by later hops, in any of several Via fields)
-   is refused: 403, or a local answer for OPTIONS/TRACE with Max-Forwards 0, or a fresh hit *)
-Lemma returned_request_not_forwarded_partial c major minor hs0 m' major' minor' cache nocache hs h post :
+   is never forwarded again: 403, or a local answer for OPTIONS/TRACE with Max-Forwards 0, or a fresh hit *)
+Lemma returned_request_not_forwarded c major minor hs0 m' major' minor' cache nocache hs h post :
   nonul (c_host c) = true -> nonul (c_app c) = true ->
   In h hs -> is_via h = true ->
   h_value h = fwd_via c major minor hs0 ++ post ->
-  cache <> CStale \/ nocache = true ->
   exists st, handle c m' major' minor' cache nocache hs = Local st.
 Proof.
-  intros Hh Ha Hin Hv Hval Hc. apply loop_not_forwarded_partial; [|exact Hc].
+  intros Hh Ha Hin Hv Hval. apply loop_not_forwarded.
   eapply via_round_trip; eassumption.
 Qed.
 
@@ -260,7 +265,7 @@ Proof.
     + destruct cache.
       * destruct (loop_detected c hs); [discriminate|]. intros H; injection H as _ H2 H3; split; congruence.
       * discriminate.
-      * intros H; injection H as _ H2 H3; split; congruence.
+      * destruct (loop_detected c hs); [discriminate|]. intros H; injection H as _ H2 H3; split; congruence.
 Qed.
 
 (* ---------- concrete witnesses (host verif.test, the tree's own application string) ---------- *)
@@ -273,14 +278,10 @@ Definition w_11 : bytes := [49; 46; 49; 32].                                    
 Definition mk_via (v : bytes) : hdr := {| h_name := w_via_name; h_value := v |}.
 Definition mk_mf (v : bytes) : hdr := {| h_name := w_mf_name; h_value := v |}.
 
-(* F16: stale hit + exactly this Squid's own Via entry => revalidated upstream *)
-Lemma own_via_stale_hit_refuted :
-  exists c hs h, In h hs /\ is_via h = true /\ h_value h = w_11 ++ this_cache c /\ loop_detected c hs = true /\
-    is_local (handle c M_GET 1 1 CStale false hs) = false.
-Proof.
-  exists w_cfg, [mk_via (w_11 ++ this_cache w_cfg)], (mk_via (w_11 ++ this_cache w_cfg)).
-  split; [left; reflexivity|]. vm_compute. repeat split; reflexivity.
-Qed.
+(* regression of the repaired F16: stale hit + exactly this Squid's own Via entry => 403, nothing forwarded *)
+Lemma own_via_stale_hit_refused :
+  handle w_cfg M_GET 1 1 CStale false [mk_via (w_11 ++ this_cache w_cfg)] = Local st_forbidden.
+Proof. vm_compute. reflexivity. Qed.
 
 (* F15a: own host name in another letter case (host names are case-insensitive) => forwarded on a miss *)
 Lemma own_via_other_case_refuted :
